@@ -153,4 +153,15 @@ Definition root_values (depth : nat) (b : board) : res (list (cmove * Z)) :=
       let* v := mm (Nat.pred depth) (toggle_turn b2) (negb (maximize (turn b1))) in
       Ok ((m, v) :: r)) (Ok []) ms.
 
+(* the same list computed with the full-window alpha-beta of each child instead of the plain
+   minimax: the fast oracle of the correspondence at larger depths.  Closed.root_values_ab_eq
+   proves the two equal on every Sound position. *)
+Definition root_values_ab (depth : nat) (b : board) : res (list (cmove * Z)) :=
+  let* (ms, b1) := gen_moves b (turn b) in
+  fold_right (fun m acc =>
+      let* r := acc in
+      let* b2 := unwrap (apply_move T m b1) in
+      let* (v, _) := ab (Nat.pred depth) (toggle_turn b2) I16_MIN I16_MAX (negb (maximize (turn b1))) in
+      Ok ((m, v) :: r)) (Ok []) ms.
+
 End WithGen.
